@@ -3,3 +3,4 @@ import BB.Generated.Tables
 import BB.Props.Tables
 import BB.Props.C01
 import BB.Props.C07
+import BB.Props.C03
